@@ -154,7 +154,7 @@ pub fn regressions() -> Vec<Case> {
 }
 
 pub fn run(ctx: &Ctx) {
-    ctx.rule("producer lines whose result passes through the real printer: numbers, percentages, money in every currency that has a configured symbol or alias (TRY, USD, SEK, DKK, BGN, EUR), durations, times with zone, dates (current-year and other-year form), unit quantities (33 units), based integers, plus the lines of all other generators x the four reading conventions x digits 0..4 x both flag settings (number, percent, money) x languages en/tr; oracle (round trip / idempotence): out1 = printed result of the line, out2 = printed result of out1 typed as a new line on the same calculator and language; out2 == out1 as strings; non-trivial = out1 contains a separator or a word (unit / currency / month / zone / duration word)");
+    ctx.rule("producer lines whose result passes through the real printer: numbers, percentages, money in every currency that has a configured symbol or alias (TRY, USD, SEK, DKK, BGN, EUR), durations, times with zone, dates (current-year and other-year form), unit quantities (33 units), based integers, plus the lines of all other generators x the four reading conventions x digits 0..4 x both flag settings (number, percent, money) x languages en/tr; times under a default zone given to set_timezone in upper, lower or mixed case (EST, est, Cet, GMT+3, gmt+3, Gmt+5:30, gmt-7, gmt1); oracle (round trip / idempotence): out1 = printed result of the line, out2 = printed result of out1 typed as a new line on the same calculator and language; out2 == out1 as strings; non-trivial = out1 contains a separator or a word (unit / currency / month / zone / duration word)");
     ctx.assume("date-times and raw timestamps are not in the statement's list; a zero duration prints the empty string and is skipped; non-finite values are skipped");
     ctx.run_table(&RoundTrip, "regressions", regressions(), false);
     ctx.run_generated(&RoundTrip, ctx.tier.pick(100_000, 1_000_000), case_strategy);
